@@ -660,6 +660,35 @@ func (sm SerialMessage) WalkAddrs(nbf *NomsBinFormat, cb func(addr hash.Hash) er
 			if err = cb(hash.New(mergeState.FromCommitAddrBytes())); err != nil {
 				return err
 			}
+			// The pre-merge HEAD commit is usually reachable from the branch as well, but not always (the
+			// working set of a rebase's working branch outlives that branch when the rebase is aborted).
+			if mergeState.PreMergeHeadCommitAddrLength() != 0 {
+				if addr := hash.New(mergeState.PreMergeHeadCommitAddrBytes()); !addr.IsEmpty() {
+					if err = cb(addr); err != nil {
+						return err
+					}
+				}
+			}
+		}
+		rebaseState, err := msg.TryRebaseState(nil)
+		if err != nil {
+			return err
+		}
+		if rebaseState != nil {
+			if rebaseState.PreWorkingRootAddrLength() != 0 {
+				if addr := hash.New(rebaseState.PreWorkingRootAddrBytes()); !addr.IsEmpty() {
+					if err = cb(addr); err != nil {
+						return err
+					}
+				}
+			}
+			if rebaseState.OntoCommitAddrLength() != 0 {
+				if addr := hash.New(rebaseState.OntoCommitAddrBytes()); !addr.IsEmpty() {
+					if err = cb(addr); err != nil {
+						return err
+					}
+				}
+			}
 		}
 	case serial.RootValueFileID:
 		var msg serial.RootValue
